@@ -16,7 +16,7 @@ class C01(core.Check):
     props_module = "CBV.Props.C01"
     workers = 8
     compare_level = "counts"
-    modes = [("well", 0.3), ("conflict", 0.18), ("double", 0.1), ("full", 0.1), ("under", 0.08), ("sandwich", 0.08), ("edge_conflict", 0.07), ("pair_conflict", 0.09)]
+    modes = [("well", 0.26), ("row", 0.04), ("conflict", 0.18), ("double", 0.1), ("full", 0.1), ("under", 0.08), ("sandwich", 0.08), ("edge_conflict", 0.07), ("pair_conflict", 0.09)]
     rule = (
         "random subsets (1..8 quick / 1..14 thorough) of cells of a jittered, anisotropically scaled lattice "
         "(face, edge-only and vertex-only contacts, detached cells), each block with one of the 24 corner "
